@@ -56,6 +56,10 @@ def judge_tournament(case, rec, source, exhaustive_tag):
         SequentialEvaluator().evaluate(decoy, inds)
         judge_tournament.keepalive = decoy
     step = TournamentSelection(case["tsize"], with_replacement=case["replacement"])
+    if case.get("reused"):
+        # the step object was used before on another population (a step is built once per search)
+        warm = mk_inds([[v + 1] for v in reversed(case["values"])])
+        list(step.apply(problem, SequentialEvaluator(), TableRep(), RecordingSource(0), list(warm), 1, 0))
     out = list(step.apply(problem, SequentialEvaluator(), TableRep(), source, list(inds), case["target"], 1))
     return inds, out
 
@@ -99,7 +103,7 @@ class TournamentRecorded(Facet):
     def strategy(self, tier):
         return st.integers(1, 8).flatmap(
             lambda n: st.builds(
-                lambda values, ts, repl, tgt, minimize, seed, decoy: {"values": values, "tsize": ts, "replacement": repl, "target": tgt, "minimize": minimize, "seed": seed, "decoy": decoy},
+                lambda values, ts, repl, tgt, minimize, seed, decoy: {"values": values, "tsize": ts, "replacement": repl, "target": tgt, "minimize": minimize, "seed": seed, "decoy": decoy, "reused": seed % 2 == 1},
                 st.lists(st.integers(-3, 3), min_size=n, max_size=n),
                 st.integers(1, n + 2),
                 st.booleans(),
@@ -229,6 +233,10 @@ def run_lexicase(case, source):
     problem = MultiObjectiveProblem(list(case["minimize"]), lambda p: list(p[1]))
     inds = mk_inds(case["vectors"])
     step = LexicaseSelection(epsilon=case["epsilon"])
+    if case.get("seed", 0) % 2 == 1:
+        # the same step object used before on another population
+        warm = mk_inds([[x + 3 for x in v] for v in reversed(case["vectors"])])
+        list(step.apply(problem, SequentialEvaluator(), TableRep(), RecordingSource(0), list(warm), 1, 0))
     out = list(step.apply(problem, SequentialEvaluator(), TableRep(), source, list(inds), case["target"], 1))
     return inds, out
 
